@@ -72,6 +72,7 @@ PLAN = [("single", len(SINGLES), len(SINGLES)),
         ("pair", len(PAIRS), len(PAIRS)),
         ("subset", 400, 6000), ("unknown", 120, 600), ("npt_low", 80, 600),
         ("npt_fixed", 80, 600), ("reuse", 60, 400),
+        ("narrow_box", 80, 600),
         ("degenerate", 150, 1500),
         ("defaults", 4, 8)]
 EXHAUSTIVE = False
@@ -471,6 +472,58 @@ def run_case(case):
                            mechanism="reuse:modified"))
         nt = f"reuse|{sorted(base)}|{n1}|{n2}"
         sample = {"options": base, "n": [n1, n2]}
+    elif fam == "narrow_box":
+        # documented adjustment to the bounds: radius_init is capped at half
+        # the smallest box width, radius_final at the new radius_init, and
+        # nothing else changes
+        n = int(rng.integers(1, 4))
+        spec = base_spec(n)
+        w = rng.choice([0.3, 0.5, 1.0, 3.0, 8.0], n)
+        lb = -0.4 * w
+        ub = lb + w
+        spec["bounds"] = {"lb": lb.tolist(), "ub": ub.tolist(),
+                          "form": "Bounds"}
+        spec["options"]["maxfev"] = 3 * n + 8
+        pick = int(rng.integers(5))
+        if pick in (1, 3):
+            spec["options"]["radius_init"] = float(rng.choice([0.1, 0.4, 1.0,
+                                                               5.0]))
+        if pick in (2, 3):
+            spec["options"]["radius_final"] = float(rng.choice(
+                [1e-8, 1e-3, 0.05]))
+        ri, rf = spec["options"].get("radius_init"), \
+            spec["options"].get("radius_final")
+        if ri is not None and rf is not None and ri < rf:
+            spec["options"]["radius_final"] = rf = ri
+        supplied = dict(spec["options"])
+        rec = mrun.run(spec)
+        info["calls"] = 1
+        post = rec.run.settings.get("tr_options_post")
+        if rec.exc is not None or post is None:
+            viols.append(V("valid_rejected",
+                           f"valid settings {supplied} with a narrow box: "
+                           f"{type(rec.exc).__name__ if rec.exc else 'no TR'}",
+                           mechanism="narrow_box"))
+        else:
+            info["ran"] = 1
+            info["completed"] = 1
+            c_ri = ri if ri is not None else max(1.0, rf or 0.0)
+            c_rf = rf if rf is not None else min(1e-6, c_ri)
+            cap = 0.5 * float(np.min(w))
+            e_ri = min(c_ri, cap)
+            e_rf = min(c_rf, e_ri) if c_ri > cap else c_rf
+            g_ri, g_rf = float(post["radius_init"]), float(post[
+                "radius_final"])
+            if not (math.isclose(g_ri, e_ri, rel_tol=1e-12)
+                    and math.isclose(g_rf, e_rf, rel_tol=1e-12)):
+                viols.append(V(
+                    "radii_adjusted_to_bounds",
+                    f"supplied {supplied}, smallest box width "
+                    f"{float(np.min(w))}: the solver works with radius_init="
+                    f"{g_ri!r}, radius_final={g_rf!r}; documented: "
+                    f"{e_ri!r}, {e_rf!r}", mechanism="narrow_box:radii"))
+        nt = f"narrow_box|n{n}|{pick}|{float(np.min(w))}"
+        sample = {"supplied": supplied, "min_width": float(np.min(w))}
     elif fam == "npt_low":
         # nb_points below n+1 (also fractional) together with something that
         # ends the run during the initial sampling: still a ValueError
